@@ -234,9 +234,43 @@ func typedProgram(s *choice.Stream) string {
 	return b.String()
 }
 
+// multiPackageProgram generates a program of 3-5 packages, each declaring
+// struct types with unexported fields (the compiler keeps a per-compilation
+// index of packages to tell such fields apart) and functions that test values
+// of the other packages' types against their own.
+func multiPackageProgram(s *choice.Stream) (map[string][]byte, []string) {
+	np := 2 + s.N(3)
+	files := map[string][]byte{"go.mod": []byte("module m\n")}
+	pkgs := []string{"main"}
+	var imports, calls strings.Builder
+	for i := 0; i < np; i++ {
+		name := fmt.Sprintf("p%c", 'a'+i)
+		pkgs = append(pkgs, "m/"+name)
+		src := fmt.Sprintf("package %s\n\ntype T struct {\n\tf int\n}\n\ntype u struct {\n\tg string\n\th int\n}\n\nfunc New(v int) interface{} { return T{v} }\n\nfunc Is(x interface{}) bool {\n\t_, ok := x.(T)\n\treturn ok\n}\n\nfunc Anon(v int) interface{} { return struct{ f int }{v} }\n\nfunc IsAnon(x interface{}) bool {\n\t_, ok := x.(struct{ f int })\n\treturn ok\n}\n\nfunc Hidden() int { return len(u{\"ab\", %d}.g) }\n", name, i)
+		files[name+"/"+name+".go"] = []byte(src)
+		fmt.Fprintf(&imports, "\t\"m/%s\"\n", name)
+	}
+	for i := 0; i < np; i++ {
+		a := fmt.Sprintf("p%c", 'a'+i)
+		fmt.Fprintf(&calls, "\tx%d := %s.New(%d)\n\ty%d := %s.Anon(%d)\n\tprintln(%s.Hidden()", i, a, i, i, a, i, a)
+		for j := 0; j < np; j++ {
+			b := fmt.Sprintf("p%c", 'a'+j)
+			fmt.Fprintf(&calls, ", %s.Is(x%d), %s.IsAnon(y%d)", b, i, b, i)
+		}
+		fmt.Fprintf(&calls, ")\n\t_, okm%d := y%d.(struct{ f int })\n\tprintln(okm%d)\n", i, i, i)
+	}
+	main := "package main\n\nimport (\n" + imports.String() + ")\n\ntype L struct {\n\tf int\n}\n\nfunc main() {\n\tl := L{1}\n\t_ = l\n" + calls.String() + "}\n"
+	files["main.go"] = []byte(main)
+	return files, pkgs
+}
+
 func pickSource(r *harness.Run) source {
 	s := r.S
-	switch s.Pick(5, 3, 1, 1, 3) {
+	switch s.Pick(5, 3, 1, 1, 3, 2) {
+	case 5:
+		files, pkgs := multiPackageProgram(s)
+		return source{name: "generated multi-package program", program: true, files: files, pkgs: pkgs,
+			opts: &scriggo.BuildOptions{Packages: native.Packages{}}}
 	case 4:
 		return source{name: "generated typed program", program: true, files: map[string][]byte{"main.go": []byte(typedProgram(s))}, pkgs: []string{"main"},
 			opts: &scriggo.BuildOptions{Packages: native.Packages{}}}
